@@ -402,6 +402,9 @@ func genFrameRanges(r *Rand, n int, thorough, multi bool, emit func(string)) {
 		}
 		rec(nil, 0)
 	}
+	for _, t := range []string{"+5", "+0", "+0010", "+1-10", "1-+5", "1,+5", "+5#", " +5", "1-5x+2", "-+5", "+-5"} {
+		emit(fsOp(r, t, "-"))
+	}
 	for i := 0; i < n; i++ {
 		if i%97 == 41 {
 			// two stepped components with the same step where the second starts exactly one step
